@@ -44,6 +44,10 @@ def r20a(rep, prog):
     if not knobs:
         return 0
     count = 0
+    prog._knob_internal = False
+    for d in prog.header_decls:
+        if d['kind'] == 'function' and d['q'] == common.KNOB and not d['external']:
+            prog._knob_internal = True
     for knob in knobs:
         fns = ex.reachable_functions(prog, [knob])
         for fn in fns:
@@ -160,6 +164,10 @@ def judge_owner(prog, fn, stmt, owner):
         if bt and bt.get('ref') and not bt.get('const'):
             return 'ok', 'owner is an out-parameter of the caller'
         return 'violation', 'owner %s is a by-value parameter' % v['name']
+    if v['kind'] == 'static_local' and getattr(prog, '_knob_internal', False) and fn.g == common.KNOB:
+        return 'violation', ('owner %s is a static local of a function with internal linkage (static): every translation unit gets its own '
+                             'copy of the function and of the owner, so a call from one unit does not release the control object created by '
+                             'another and TBB keeps applying the minimum of all live limits' % v['name'])
     if v['kind'] in ('static_local', 'global', 'static_member', 'field'):
         cfg = fn.cfg
         p = cfg.pos_of(stmt)
@@ -222,6 +230,44 @@ def r20b(rep, prog):
                         problems.append('knob call is skipped when `%s` holds (line %d)' % (c.text(60), c.line))
                 except KeyError:
                     pass
+            # R20c: the value handed to the knob is what --cores said (0 = hardware concurrency)
+            whatv = 'the value passed to the knob is the value of --cores (0 meaning all hardware threads)'
+            arg = kcall.args()[0] if kcall.args() else None
+            xv = ex.var_of(arg) if arg is not None else None
+            if arg is not None and common.option_atom(arg) == ('opt', 'cores'):
+                rep.ok('R20c', kcall, main, whatv, 'option value passed directly')
+            elif xv is None:
+                rep.undecided('R20c', kcall, main, whatv, 'argument `%s` is not a variable' % (arg.text(30) if arg is not None else '?'))
+            else:
+                defs = ex.assignments_to(main, xv)
+                from_opt = [d for (d, rhs) in defs if rhs is not None and common.option_atom(rhs) == ('opt', 'cores')]
+                vprobs = []
+                if not from_opt:
+                    vprobs.append('the variable is never assigned from vm["cores"]')
+                for (d, rhs) in defs:
+                    if d in from_opt:
+                        continue
+                    if not cfg.reaches(d, kcall):
+                        continue
+
+                    def zatom(leaf):
+                        s2 = leaf.strip_all()
+                        if s2.k == 'BinaryOperator' and s2.op in ('==', '!=') and ((ex.var_of(s2.c[0]) == xv and s2.c[1].strip_all().cv == 0) or
+                                                                                 (ex.var_of(s2.c[1]) == xv and s2.c[0].strip_all().cv == 0)):
+                            f0 = ex.f_atom('zero')
+                            return f0 if s2.op == '==' else ex.f_not(f0)
+                        if s2.k == 'UnaryOperator' and s2.op == '!' and ex.var_of(s2.c[0]) == xv:
+                            return ex.f_atom('zero')
+                        return None
+                    from .c10 import guards_formula, implies
+                    g = guards_formula(cfg, d, zatom)
+                    if 'zero' in ex.f_atoms(g) and implies(g, ex.f_atom('zero')):
+                        continue
+                    vprobs.append('`%s` (line %d) replaces the requested value also when it is not 0' % (d.text(50), d.line))
+                if vprobs:
+                    rep.violation('R20c', kcall, main, whatv, '; '.join(vprobs), key='R20c|%s|value' % os.path.basename(prog.tu))
+                else:
+                    rep.ok('R20c', kcall, main, whatv, 'assigned from vm["cores"]; only re-assigned under == 0')
             relnames = sorted({repr(a) for (f, c) in atoms for a in ex.f_atoms(f)})
             detail = 'relative control dependence atoms: %s' % ', '.join(relnames)
             tu = os.path.basename(prog.tu)
@@ -245,6 +291,7 @@ def _atom(leaf):
 def run(rep, tier):
     rep.rule('R20a', 'the TBB control object outlives set_global_tbb_concurrency and is re-created on every call', floor=1)
     rep.rule('R20b', 'demos call the knob whenever a parallel algorithm is selected, independent of unrelated flags', floor=2)
+    rep.rule('R20c', 'the knob receives the value of --cores', floor=2)
     tus = [env.witness_tu()] + env.demo_tus()
     progs = env.extract(tus, 'full')
     rep.saw_programs(progs.values())
@@ -263,5 +310,6 @@ def run(rep, tier):
     r20b(prep, pp)
     rep.positive('R20a', 'witness/positive/c20_local_control.cc', any(i.status == 'violation' and i.rule == 'R20a' for i in prep.instances.values()))
     rep.positive('R20b', 'witness/positive/c20_local_control.cc', any(i.status == 'violation' and i.rule == 'R20b' for i in prep.instances.values()))
+    rep.positive('R20c', 'witness/positive/c20_local_control.cc', any(i.status == 'violation' and i.rule == 'R20c' for i in prep.instances.values()))
     rep.assume('TBB semantics: a global_control limits parallelism exactly while the object is alive; when several are alive the minimum applies')
     rep.assume('only the configuration with PARMCB_HAVE_TBB is analysed (the knob does not exist otherwise)')
